@@ -298,7 +298,48 @@ func subsets(ids []string) [][]string {
 	return o
 }
 
+// checkOrderAgain: a list is ordered, then edited by its owner through the public fields (cues retimed, the slice
+// reversed, a cue appended), then ordered again: the second call must order the list as it is NOW.
+func checkOrderAgain(l lm.List, edit int) (string, string) {
+	r := lm.Build(l, []string{"a"}, []string{"r"})
+	r.Subs.Order()
+	its := r.Subs.Items
+	switch edit {
+	case 0: // reverse the slice
+		for i, j := 0, len(its)-1; i < j; i, j = i+1, j-1 {
+			its[i], its[j] = its[j], its[i]
+		}
+	case 1: // retime: the first cue now starts after all others
+		if len(its) > 0 {
+			late := its[len(its)-1].StartAt + time.Second
+			its[0].EndAt += late - its[0].StartAt
+			its[0].StartAt = late
+		}
+	case 2: // append a cue that starts before everything
+		first := &astisub.Item{StartAt: 0, EndAt: time.Nanosecond, Lines: []astisub.Line{{Items: []astisub.LineItem{{Text: "new"}}}}}
+		r.Subs.Items = append(r.Subs.Items, first)
+	}
+	before := r.Extract()
+	for i := range before {
+		before[i].U = i
+	}
+	want := refops.Order(before)
+	r.Subs.Order()
+	got := r.Extract()
+	for i := range got {
+		got[i].U = 0
+	}
+	for i := range want {
+		want[i].U = 0
+	}
+	if !lm.Equal(got, want) {
+		return "order.second-call-ignores-edits", fmt.Sprintf("Order, then the owner edited the list (edit %d) into %s, then Order again: expected %s, got %s", edit, before, want, got)
+	}
+	return "", ""
+}
+
 func c12Run(c *core.Ctx) {
+	longRun(c, "order")
 	// Order: all lists, any order, equal starts
 	maxN, grid := 4, int64(3)
 	bigStarts := 2
@@ -327,6 +368,16 @@ func c12Run(c *core.Ctx) {
 		c.Record("order", core.Hash64(fmt.Sprint(exp)), nt, cas)
 		if key != "" {
 			c.Violate("order", key, msg, cas(), len(l))
+		}
+		if len(l) >= 2 && len(l) <= 3 {
+			for edit := 0; edit < 3; edit++ {
+				k2, m2 := checkOrderAgain(l, edit)
+				c.Transitions++
+				c.Record("order.again", core.Hash64(k2), core.Hash64("again", l.Key(), fmt.Sprint(edit)), nil)
+				if k2 != "" {
+					c.Violate("order", k2, m2, opCase{Op: "order-again", Unit: ms, List: l.Clone(), P: []int64{int64(edit)}}, len(l)+10)
+				}
+			}
 		}
 		return true
 	})
@@ -438,6 +489,10 @@ func c12Replay(sub string, raw json.RawMessage) (string, bool) {
 	var oc opCase
 	if err := json.Unmarshal(raw, &oc); err != nil {
 		return err.Error(), false
+	}
+	if oc.Op == "order-again" && len(oc.P) == 1 {
+		k, m := checkOrderAgain(oc.List, int(oc.P[0]))
+		return m, k != ""
 	}
 	_, key, msg := checkOrder(oc.List)
 	return msg, key != ""
